@@ -215,9 +215,9 @@ class Trace(object):
 class Session(object):
     """Lock-step session; records the trace; keeps the little state a generator needs."""
 
-    def __init__(self, build, config, leaks=True, env=None):
+    def __init__(self, build, config, leaks=True, env=None, transport=None):
         self.config = config
-        self.d = daemon.Daemon(build, config.text(build["moddir"]), leaks=leaks, env=env)
+        self.d = daemon.Daemon(build, config.text(build["moddir"]), leaks=leaks, env=env, transport=transport)
         self.dead = False
         try:
             banner = self.d.start()
